@@ -46,6 +46,18 @@ CHECKS = {
          "Peer INITIAL_WINDOW_SIZE in {0,1,5}; a prelude response leaves the connection window at 5 bytes so both windows bind with tiny numbers; 6 (quick) / 10 (thorough) configurations of 1-3 streams with response sizes from {0,1,3,6,16384,16385,40000}, buffered or streamed; every sequence to depth 4 / 5 over {handler returns, stream WINDOW_UPDATE 1|2|big, connection WINDOW_UPDATE 1|3|big, SETTINGS_INITIAL_WINDOW_SIZE 0|1|4|70000 (negative windows), RST_STREAM}, each followed by a closing phase that grants everything. Oracle: ledger never negative at a DATA frame, no DATA above 16384, never stuck with both windows positive, every response complete with END_STREAM once.",
          "DATA frames are charged in the order received. Canonical internal schedule between events.",
          "DESIGN.md §4 C06"),
+ "C14": ("exhaustive enumeration of upload leak classes against a conforming sender model on the real ServeConn (ELX), each driven to more than twice the advertised connection window",
+         "Sender model sends DATA only within its ledger and blocks exactly when a window is exhausted. Leak classes: accepted uploads on 1-3 interleaved streams, bodies over the limit (stream error), length mismatch, peer reset mid-body, refused streams with DATA in flight, DATA in flight after the server's reset, padding-only frames, empty DATA frames x chunk sizes x padding. Oracle: increments > 0, windows <= 2^31-1, sender never starved at quiescence, and the connection window returns to the same peak after every refill (a sinking peak is credit leaking, detected long before it starves). The client half (downloads) is added with the client harness.",
+         "The volume (2x the advertised window) is a deterministic repetition of each enumerated class, not a sample. The sender stops on a stream after flushing what was in flight when RST_STREAM arrived.",
+         "DESIGN.md §4 C14"),
+ "C13": ("exhaustive event-sequence exploration (ELX) of adversarial moves with gated handlers on the real ServeConn, with pool gauges of the controlled runtime as the memory oracle, plus pumped repetitions",
+         "MaxConcurrentStreams=2, MaxRequestBodySize=8, MaxHeaderListSize=200. Every sequence to depth 5 (quick) / 7 (thorough) over 13 adversarial moves (request, half-open request, RST of the newest stream, PRIORITY / WINDOW_UPDATE on new idle ids, open header block, CONTINUATION with more fields, DATA over the limit, mis-declared content-length, PING, SETTINGS, oldest handler returns); live sequences are also repeated x8 and x32. Invariants at every quiescent state: handlers running <= limit, body/header list seen by handlers within limits, Stream / RequestCtx objects held <= limit+2, queued frames bounded, and no gauge larger after 32 repetitions than after 8.",
+         "Per-connection memory is observed as outstanding objects of the deterministic pools substituted for sync.Pool; the closed-stream ring (constant cap in the code) is not observable this way.",
+         "DESIGN.md §4 C13"),
+ "C10": ("exhaustive enumeration (ELX) of a catalogue of connection-scoped offences x history x trailing traffic x peer behaviour on the real ServeConn with virtual timers",
+         "22 offences (wrong fixed sizes, oversized frame, CONTINUATION sequencing, PING/SETTINGS on a stream, invalid SETTINGS values, connection window overflow / zero increment, HPACK errors, even id, idle id, lower id) x 0-2 requests dispatched before x handlers returned / still running x trailing traffic (none, a new request, 140 PINGs, a half frame, 140 DATA or 140 requests already on the wire behind the offending frame) x peer silent / closes / stopped reading; idle-timeout firing at every point of a request's life. Oracle: GOAWAY or close with an allowed code; every GOAWAY's last-stream-id >= highest stream ever dispatched; nothing dispatched after the error; after handlers return and armed virtual timers fire ServeConn has returned and no goroutine is left.",
+         "'Bounded time' = after finitely many virtual timer firings. Timer-vs-request races at lock granularity are C19's.",
+         "DESIGN.md §4 C10"),
 }
 
 NOT_YET = "check not built yet (work in progress; see DESIGN.md §6 build order)"
